@@ -150,6 +150,15 @@ func c16Run(t *testing.T, out *vhOut, beh int, steps []c16Step, devs []string) {
 				}
 				ev.Ev = "RefreshAborted"
 				aborted[s.R] = true
+				// ... unless an upload of that refresh turns up after all: the refresh has told its caller that
+				// it failed (and has put everything back) while the batch is still on its way to the backend
+				select {
+				case u := <-up.entered:
+					ev.Ev = "UploadOutlivesRefresh"
+					ev.Taken = c16Fill(u.atEntry, devs)
+					go func() { u.release <- nil }()
+				case <-time.After(300 * time.Millisecond):
+				}
 			case <-time.After(10 * time.Second):
 				t.Fatalf("refresh %s did not reach Upload", s.R)
 			}
